@@ -133,13 +133,13 @@ def tokenizer(config=None):
     return t
 
 
-def parse(src, config=None, cpu_budget=4.0):
+def parse(src, config=None, cpu_budget=4.0, eos=False):
     """-> ("ok", tokens) | ("timeout", None) | ("exc", "Type: msg @ module.func")"""
     t = tokenizer(config)
     signal.signal(signal.SIGVTALRM, _alarm)
     signal.setitimer(signal.ITIMER_VIRTUAL, cpu_budget)
     try:
-        toks = t.transform(src, show_debug=False)
+        toks = t.transform(src, show_debug=False, do_add_end_of_stream_token=eos)
         signal.setitimer(signal.ITIMER_VIRTUAL, 0)
         return "ok", toks
     except _Timeout:
